@@ -197,6 +197,7 @@ impl Transport for MemoryTransport {
             addr: Protocol::Memory(port.get()).into(),
             receiver: rx,
             tell_listen_addr: true,
+            registered: true,
         };
         self.listeners.push_back(Box::pin(listener));
 
@@ -206,8 +207,7 @@ impl Transport for MemoryTransport {
     fn remove_listener(&mut self, id: ListenerId) -> bool {
         if let Some(index) = self.listeners.iter().position(|listener| listener.id == id) {
             let listener = self.listeners.get_mut(index).unwrap();
-            let val_in = HUB.unregister_port(&listener.port);
-            debug_assert!(val_in.is_some());
+            listener.unregister();
             listener.receiver.close();
             true
         } else {
@@ -315,6 +315,27 @@ pub struct Listener {
     receiver: ChannelReceiver,
     /// Generate [`TransportEvent::NewAddress`] to inform about our listen address.
     tell_listen_addr: bool,
+    /// Whether `port` is (still) registered for this listener with the global [`HUB`].
+    registered: bool,
+}
+
+impl Listener {
+    /// Frees the listening port on the global [`HUB`], at most once.
+    ///
+    /// Once freed, the port may be taken by another listener, whose
+    /// registration must not be touched.
+    fn unregister(&mut self) {
+        if std::mem::take(&mut self.registered) {
+            let val_in = HUB.unregister_port(&self.port);
+            debug_assert!(val_in.is_some());
+        }
+    }
+}
+
+impl Drop for Listener {
+    fn drop(&mut self) {
+        self.unregister();
+    }
 }
 
 /// If the address is `/memory/n`, returns the value of `n`.
